@@ -85,7 +85,7 @@ theorem core {m : Mem} (hi : LogInv m) (hdrLay : LY.Layout) (hdr : Option Item) 
     (ty : Ty) (n : Nat) (it : IterSt) : LogInv (fromHeaderAndIterCore m hdrLay hdr recLen ty n it).mem := by
   unfold fromHeaderAndIterCore
   split
-  · exact hi.emit (quiet_dropRest _)
+  · exact hi.emit (Quiet.append (quiet_dropRest _) (Quiet.map_drop _ _))
   · split
     rename_i m1 b hab
     have h1 : LogInv m1 := by
